@@ -71,8 +71,12 @@ class SerialAssembleAction : public AssembleAction {
     void onLastChildFinished(bool is_succ, const Reason &reason, const Trace &trace);
 
   private:
+    void cancelChildFinishRun();
+
+  private:
     Action *curr_action_ = nullptr;     //! 当前正在执行的动作
     ChildFinishFunc child_finish_func_; //! 上一个动用缓存的finish事件
+    event::Loop::RunId child_finish_run_id_ = 0;  //!< resume() 时重新派发的 child_finish_func_ 的任务ID，stop/reset 时撤回
 };
 
 }
